@@ -288,3 +288,6 @@ def required_labels(tier):
 
 
 KNOWN_PREDICATES = {}
+
+
+RULE = RULE + " " + ("Scenario statuses are read from the Scenario objects that ran, and the status class of every scenario (failed / error / passed) is demanded by the reference model (outcomes of the generated steps, injected hook and cleanup faults), not by behave's model.")
